@@ -14,7 +14,9 @@ RULE = ("(a) EXHAUSTIVE: every arrival history in which the i-th new block picks
         "ancestors-and-self for EVERY stored block (identity fast path, full comparison otherwise), forks() = one pair per "
         "tip with the deepest common ancestor on the head's chain. (b) Hypothesis: random validated histories with "
         "transactions (up to 40 blocks quick / 60 thorough, fork-heavy) through add_block with the same oracle after each "
-        "arrival. non-trivial = state (history prefix) containing a tie at maximal height or a tip that stopped being a tip "
+        "arrival (a valid arrival that is refused counts as a violation: the head is then not the best arrived block). (c) the same "
+        "histories, interleaved with rule-breaking blocks, DELIVERED to a simulated node by a peer (relay path with its rollback), "
+        "oracle on the chain state the node serves. non-trivial = state (history prefix) containing a tie at maximal height or a tip that stopped being a tip "
         "(exhaustive part: counted per state, states are distinct by construction); (b): digest of the op list.")
 ASSUMPTIONS = ["exhaustive part uses unvalidated reward-only blocks (fork choice does not depend on validation)",
                "total work = height (as this version defines it)"]
@@ -22,7 +24,7 @@ MIN_NONTRIVIAL = {"quick": 20_000, "thorough": 1_000_000}
 
 
 def shards(tier):
-    return [{"kind": "dfs", "i": i, "n": 16} for i in range(16)] + [{"kind": "hist", "i": i} for i in range(4)]
+    return [{"kind": "dfs", "i": i, "n": 16} for i in range(16)] + [{"kind": "hist", "i": i} for i in range(4)] + [{"kind": "relay", "i": i} for i in range(2)]
 
 
 class Dfs:
@@ -180,6 +182,10 @@ def replay_parents(parents, res):
 class C04Run(chainexec.Run):
     def oracle(self):
         led, cs = self.world.uni, self.cs
+        lost = [i for i in led.order if i not in cs.block_by_hash]
+        if lost:
+            self.fail("arrival", "arrived-valid-block-no-longer-stored", "validated history: %d valid block(s) that had arrived and been accepted are no longer in chain state (first: %s)" % (len(lost), lost[0].hex()[:12]))
+            return
         if cs.current_chain_hash != led.head().id:
             self.fail("head", "head!=first-seen-highest", "validated history: head differs from reference")
         if set(cs.heads.keys()) != led.tips():
@@ -192,8 +198,90 @@ class C04Run(chainexec.Run):
                 break
 
 
+class Refused(Exception):
+    pass
+
+
+class NodeState:
+    """stands in for the CoinState of a chainexec.Run: add_block DELIVERS the block to a simulated node as an unsolicited
+    data message from a peer; every other attribute is read from the chain state the node serves at that moment"""
+
+    def __init__(self):
+        from vf import simnet
+        from skepticoin.coinstate import CoinState
+        from skepticoin.networking import messages as M
+        self.simnet, self.M = simnet, M
+        simnet.install()
+        self.net = simnet.Net()
+        self.node = self.net.add("n", "10.0.0.1", CoinState.zero(), 3)
+        self.n_wires = 0
+        self.connect()
+
+    def connect(self):
+        self.n_wires += 1
+        self.wire = self.simnet.Wire(self.net, self.node, host="10.0.4.%d" % (self.n_wires % 200 + 2))
+        self.wire.greet()
+
+    def add_block(self, skb, now):
+        self.simnet.CLOCK.now = now
+        if not self.wire.connected:
+            self.connect()
+        self.wire.send(self.M.DataMessage(self.M.DATA_BLOCK, skb))
+        self.wire.deliver()
+        self.net.drain(None, only=[self.node])
+        if skb.hash() in self.node.cm.coinstate.block_by_hash:
+            return self
+        raise Refused("the node did not take the delivered block into its chain state")
+
+    def __getattr__(self, name):
+        return getattr(self.node.cm.coinstate, name)
+
+
+def replay_relay(case):
+    """the arrival history (valid blocks of competing branches, interleaved with rule-breaking ones) is delivered to a node
+    by a peer; after every delivery the node's head, tips and index must be those of the valid arrivals so far"""
+    env.import_networking()
+    r = C04Run({"cfg": case["cfg"], "ops": []}, ("C04",))
+    r.cs = NodeState()
+    for op in case["ops"]:
+        r.case = {"cfg": case["cfg"], "ops": [op]}
+        r.execute()
+        if r.harness:
+            r.fail("arrival", "valid-arrival-refused:relay", "a fully valid block delivered by a peer (parent known) was not taken into chain state: %s" % r.harness[0])
+        r.oracle()
+        if r.cs.net.escaped:
+            r.fail("escape", "exception-escaped-handler", r.cs.net.escaped[0][1])
+        if r.fails:
+            return r.fails
+    return []
+
+
 def run(shard, tier, seed):
     res = Result()
+    if shard["kind"] == "relay":
+        n = 12 if tier == "quick" else 200
+
+        @hypothesis.seed(env.subseed(seed, ID, "relay", shard["i"]))
+        @settings(max_examples=n, deadline=None, database=None, suppress_health_check=list(hypothesis.HealthCheck),
+                  phases=[hypothesis.Phase.generate])
+        @given(st.randoms(use_true_random=True), st.sampled_from(chainexec.CFGS[:3]), st.integers(8, 24))
+        def prop(rnd, cfg, k):
+            case = chainexec.gen_case(rnd, cfg, k, 0.3, ["C05", "C02", "C01"], p_fork=0.55, p_tx=0.4, p_twin=0.0)
+            case.pop("horizon", None)
+            case["relay"] = True
+            fails = replay(case)
+            res.evaluations += len(case["ops"])
+            res.count("relayed_histories")
+            if any(o.get("mut") for o in case["ops"]):
+                res.count("relayed_histories_with_rule_breaking_blocks")
+            res.nontrivial(env.digest(case))
+            for f in fails:
+                res.fail(f["kind"], f["sig"], f["msg"], case)
+            if res.counters["relayed_histories"] == 1:
+                res.sample({"relayed_history_ops": [(o["label"], o["parent"], o.get("mut")) for o in case["ops"]]})
+
+        prop()
+        return res
     if shard["kind"] == "dfs":
         nmax = 8 if tier == "quick" else 10
         d = Dfs(res, nmax)
@@ -248,12 +336,19 @@ def replay(case):
         res = Result()
         replay_parents(case["parents"], res)
         return res.failures
+    if case.get("relay"):
+        return replay_relay(case)
     # validated history: run op by op, oracle after each
-    r = C04Run({"cfg": case["cfg"], "ops": []}, ("C04",))
+    r = C04Run({k: case[k] for k in ("cfg", "horizon") if k in case}, ("C04",))
+    r.case["ops"] = []
     fails = []
     for op in case["ops"]:
-        r.case = {"cfg": case["cfg"], "ops": [op]}
+        r.case = dict(r.case, ops=[op])
         r.execute()
+        if r.harness:
+            # a fully valid block whose parent is stored ARRIVED and was refused: the head is then not the first-seen block of
+            # greatest height among the arrivals
+            r.fail("arrival", "valid-arrival-refused", "a fully valid block (parent stored) offered to add_block was refused: %s" % r.harness[0])
         r.oracle()
         if r.fails:
             return r.fails
